@@ -7,9 +7,10 @@ saved or copied.  An identically built object A runs k iterations and is then
   * cloned through the serialise/reload *fallback* of `clone()`, forced by replacing, for that one call,
     the `copy.deepcopy` that `ptychography.py` looks up by a raiser,
   * saved without raw data and reloaded onto an identically preprocessed dataset.
-State equality (num_iters, iter_losses, iter_lrs, constraints, obj, probe, learned dataset parameters,
-snapshots) is judged right after the reload; then A and every twin continue with the same calls as R
-and must reach R's loss history, learning-rate history, object and probe.
+State equality (num_iters, iter_losses, iter_lrs, constraints, obj, probe) is judged right after the
+reload; then A and every twin continue with the same calls as R and must reach R's loss history,
+learning-rate history, object and probe.  Stored snapshots and learned dataset parameters are compared
+too but only *recorded* (evidence counters `observed_unjudged:*`): the property does not name them.
 """
 from __future__ import annotations
 
@@ -33,8 +34,9 @@ RULE = (
 ASSUMPTIONS = [
     "full-batch updates; the numpy generator that orders the (single) batch is re-seeded on load, which is outside the claim: in 'sync' cases the same public call "
     "`x.rng = s` is applied to the reference, the original and every twin before continuing (measured: continuation is then bitwise identical, bound 1e-5 relative); "
-    "in 'free' cases (20%) the generators are left alone: summation order then differs, Adam turns that float32 noise into O(lr) moves of weakly illuminated pixels "
-    "(measured up to 1e-3 in obj), so only the loss history (measured noise 2e-7, bound 1e-3), learning rates, iteration count, constraints and snapshot iterations are judged there",
+    "in 'free' cases (20%) the generators are left alone: summation order then differs and Adam / an unstable run amplify that float32 noise without bound "
+    "(measured 1e-3 in obj, 8e-2 in a diverging loss history), so only what is a function of the split state alone is judged there: iteration count, constraints and the "
+    "first continued entry of the loss and learning-rate histories (measured noise 2e-7, bound 1e-4)",
     "state equality after reload is judged at 1e-6 relative (measured 0)",
     "the raw-data-free save is judged for state equality always (object/probe/detector constraints; dataset constraints live in the dataset that is not saved) "
     "and for continuation only when the dataset model has no optimizer (its Adam state lives in the skipped dataset)",
@@ -50,7 +52,7 @@ SCHEDULERS = ["none", "exp", "linear", "cyclic", "plateau"]
 STYLES = ["plain", "plain", "two_calls", "new_constraints", "add_probe_optimizer", "new_scheduler"]
 TOL_STATE = 1e-6
 TOL_SYNC = 1e-5
-TOL_FREE = 1e-3
+TOL_FREE = 1e-4
 
 
 def plan(tier, seed):
@@ -277,19 +279,31 @@ def _cdiff(a, b, path=""):
     return None if a == b else path + ": %r vs %r" % (a, b)
 
 
-def _compare(ctx, ref, got, tol, f, judge_dataset_constraints=True, judge_dataset_params=True, arrays=True, tol_loss=None):
-    """ref/got: snapshots; records one evaluation per observable of the property.  arrays=False (free-running generators): object / probe /
-    learned parameters are only recorded, not judged (Adam turns summation-order noise into O(lr) moves of weakly illuminated pixels)"""
+def _observe_unjudged(ctx, name, differs):
+    """things a checkpoint also carries but the property does not name: recorded in evidence, never part of the verdict"""
+    ctx.count("observed_unjudged:%s:compared" % name)
+    if differs:
+        ctx.count("observed_unjudged:%s:differs" % name)
+
+
+def _compare(ctx, ref, got, tol, f, judge_dataset_constraints=True, first_only=None):
+    """ref/got: snapshots of the public state; one evaluation per observable named by the property.
+
+    first_only=k (free-running generators): only the first continued iteration (history entries 0..k) is judged - it is a function of the
+    state at the split alone; later iterations see summation-order noise that Adam / an unstable run can amplify without bound, and object /
+    probe are only recorded."""
     ph = f["phase"]
-    tol_loss = tol if tol_loss is None else tol_loss
     ctx.check(got["num_iters"] == ref["num_iters"], "num_iters_differs", "%s: num_iters %d, expected %d" % (f["twin"], got["num_iters"], ref["num_iters"]), **f)
-    r = _relmax(ref["iter_losses"], got["iter_losses"])
-    ctx.close(r, tol_loss, "iter_losses_differ", lambda: "%s %s: iter_losses %s vs expected %s" % (f["twin"], ph, got["iter_losses"].tolist()[-6:], ref["iter_losses"].tolist()[-6:]), track="%s:%s" % (ph, f["sync"]), **f)
+    cut = (lambda a: a) if first_only is None else (lambda a: a[: first_only + 1])
+    tol_hist = tol if first_only is None else TOL_FREE
+    same_len = len(ref["iter_losses"]) == len(got["iter_losses"])
+    r = _relmax(cut(ref["iter_losses"]), cut(got["iter_losses"])) if same_len else float("inf")
+    ctx.close(r, tol_hist, "iter_losses_differ", lambda: "%s %s: iter_losses %s vs expected %s" % (f["twin"], ph, got["iter_losses"].tolist()[-6:], ref["iter_losses"].tolist()[-6:]), track="%s:%s" % (ph, f["sync"]), **f)
     ctx.check(set(got["iter_lrs"]) == set(ref["iter_lrs"]), "iter_lrs_keys_differ", "%s: iter_lrs keys %s, expected %s" % (f["twin"], sorted(got["iter_lrs"]), sorted(ref["iter_lrs"])), **f)
     worst = 0.0
     for k in ref["iter_lrs"]:
         if k in got["iter_lrs"]:
-            worst = max(worst, _relmax(ref["iter_lrs"][k], got["iter_lrs"][k]))
+            worst = max(worst, _relmax(cut(ref["iter_lrs"][k]), cut(got["iter_lrs"][k])) if len(ref["iter_lrs"][k]) == len(got["iter_lrs"][k]) else float("inf"))
     ctx.close(worst, 1e-6, "iter_lrs_differ", lambda: "%s %s: learning-rate history %s vs expected %s" % (f["twin"], ph, {k: v.tolist()[-5:] for k, v in got["iter_lrs"].items()}, {k: v.tolist()[-5:] for k, v in ref["iter_lrs"].items()}), **f)
     ca, cb = dict(ref["constraints"]), dict(got["constraints"])
     if not judge_dataset_constraints:
@@ -300,19 +314,18 @@ def _compare(ctx, ref, got, tol, f, judge_dataset_constraints=True, judge_datase
     ro = _relmax(ref["obj"], got["obj"])
     rp = _relmax(ref["probe"], got["probe"])
     rd = max(_relmax(ref["descan"], got["descan"]) if np.abs(ref["descan"]).max() > 0 else float(np.abs(got["descan"]).max()), _relmax(ref["positions"], got["positions"]))
-    if not arrays:
-        st = ctx.state.setdefault("free_noise", {"obj": 0.0, "probe": 0.0, "dataset": 0.0})
-        st.update(obj=max(st["obj"], ro), probe=max(st["probe"], rp), dataset=max(st["dataset"], rd))
-        ctx.state["evidence_extra"] = {"free_running_generators_unjudged_array_noise": st}
-        ok = len(ref["snapshots"]) == len(got["snapshots"]) and all(x["iteration"] == y["iteration"] for x, y in zip(ref["snapshots"], got["snapshots"]))
-        ctx.check(ok, "snapshots_differ", lambda: "%s %s: snapshot iterations %s, expected %s" % (f["twin"], ph, [x["iteration"] for x in got["snapshots"]], [x["iteration"] for x in ref["snapshots"]]), **f)
+    if first_only is not None:
+        st = ctx.state.setdefault("free_noise", {"obj": 0.0, "probe": 0.0, "loss_history": 0.0})
+        st.update(obj=max(st["obj"], ro), probe=max(st["probe"], rp), loss_history=max(st["loss_history"], _relmax(ref["iter_losses"], got["iter_losses"]) if same_len else 0.0))
+        ctx.state["evidence_extra"] = {"free_running_generators_unjudged_noise": st}
         return r
     ctx.close(ro, tol, "obj_differs", lambda: "%s %s: max|obj - expected| / max|expected|" % (f["twin"], ph), track="%s:%s" % (ph, f["sync"]), **f)
     ctx.close(rp, tol, "probe_differs", lambda: "%s %s: max|probe - expected| / max|expected|" % (f["twin"], ph), track="%s:%s" % (ph, f["sync"]), **f)
-    if judge_dataset_params:
-        ctx.close(rd, tol, "dataset_parameters_differ", lambda: "%s %s: learned descan shifts / scan positions" % (f["twin"], ph), track="%s:%s" % (ph, f["sync"]), **f)
-    ok = len(ref["snapshots"]) == len(got["snapshots"]) and all(x["iteration"] == y["iteration"] and _relmax(x["obj"], y["obj"]) <= tol and _relmax(x["probe"], y["probe"]) <= tol for x, y in zip(ref["snapshots"], got["snapshots"]))
-    ctx.check(ok, "snapshots_differ", lambda: "%s %s: %d stored snapshots (iterations %s), expected %d (%s)" % (f["twin"], ph, len(got["snapshots"]), [x["iteration"] for x in got["snapshots"]], len(ref["snapshots"]), [x["iteration"] for x in ref["snapshots"]]), **f)
+    # carried by a checkpoint but not named by the property: observed only
+    _observe_unjudged(ctx, "learned_dataset_parameters:%s" % ph, rd > tol)
+    snaps_ok = len(ref["snapshots"]) == len(got["snapshots"]) and all(x["iteration"] == y["iteration"] and _relmax(x["obj"], y["obj"]) <= tol and _relmax(x["probe"], y["probe"]) <= tol for x, y in zip(ref["snapshots"], got["snapshots"]))
+    if ref["snapshots"] or got["snapshots"]:
+        _observe_unjudged(ctx, "stored_snapshots:%s" % ph, not snaps_ok)
     return max(r, ro, rp)
 
 
@@ -441,7 +454,7 @@ def run_case(spec, idx, ctx):
         _compare(ctx, split, _snap(B), TOL_STATE, dict(f0, twin=name, phase="state"), judge_dataset_constraints=not noraw)
     # ---- continuation: twins first, then the original (a twin that shares state with A shows up in A) ---
     tol = TOL_SYNC
-    ckw = {} if sync else {"arrays": False, "tol_loss": TOL_FREE}
+    ckw = {} if sync else {"first_only": k}
     worst = 0.0
     for name, B in twins.items():
         noraw = name.startswith("noraw")
@@ -485,6 +498,7 @@ def summarize(all_cases, counters, extras):
         "loads": int(counters.get("hook:Ptychography.from_file", 0)),
         "clones": int(counters.get("hook:Ptychography.clone", 0)),
         "optimizer_reconnects": int(counters.get("hook:OptimizerMixin.reconnect_optimizer_to_parameters", 0)),
-        "tolerances": {"state": TOL_STATE, "continuation_sync": TOL_SYNC, "continuation_free_losses_only": TOL_FREE, "lr_history": 1e-6},
-        "free_running_generators_unjudged_array_noise": {k: max([e.get("free_running_generators_unjudged_array_noise", {}).get(k, 0.0) for e in extras] or [0.0]) for k in ("obj", "probe", "dataset")},
+        "tolerances": {"state": TOL_STATE, "continuation_sync": TOL_SYNC, "continuation_free_first_iteration_only": TOL_FREE, "lr_history": 1e-6},
+        "free_running_generators_unjudged_noise": {k: max([e.get("free_running_generators_unjudged_noise", {}).get(k, 0.0) for e in extras] or [0.0]) for k in ("obj", "probe", "loss_history")},
+        "observed_unjudged": {k[len("observed_unjudged:"):]: int(v) for k, v in sorted(counters.items()) if k.startswith("observed_unjudged:")},
     }
